@@ -187,7 +187,7 @@ def main(ck):
     else:
         # the real 3-node group scenarios run as separate processes next to the case stream, the cluster in a thread
         gprocs = [subprocess.Popen([binp, "group", "30100", f], stdout=subprocess.PIPE, stderr=subprocess.DEVNULL, text=True,
-                                   cwd=ck.work, env=env) for f in ("time", "size", "none")]
+                                   cwd=ck.work, env=env) for f in ("time", "size", "none", "lag")]
         cth = threading.Thread(target=cluster, args=(ck,))
         cth.start()
         rc, out = ck.run([binp, "cases", str(n)], timeout=3000)
@@ -209,6 +209,10 @@ def main(ck):
                 ck.notes.append("group scenario not run: %s" % gc[0].get("note"))
             else:
                 cases += gc
+    stopped = [c for c in cases if c["kind"] == "stopped"]
+    cases = [c for c in cases if c["kind"] != "stopped"]
+    if stopped:
+        ck.cov["observation_write_on_stopped_raft_node"] = stopped[0]   # outside the fault space; see NOTES.md
     ck.log("harness done: %d cases" % len(cases))
     # sanity of the replay observations (contiguous range ending at commit)
     for i, c in enumerate(cases):
